@@ -60,7 +60,7 @@ func (s *Store) VerifFundingRowCount(v2 bool) (n int, err error) {
 // VerifUsageColumns holds the raw usage columns of a contract row.
 type VerifUsageColumns struct {
 	RPC, Storage, Egress, Ingress, RegistryRead, RegistryWrite, AccountFunding, RiskedCollateral types.Currency
-	Status                                                                                     string
+	Status                                                                                       string
 }
 
 // VerifContractUsageColumns reads the usage columns of contracts / contracts_v2 as stored.
